@@ -380,7 +380,8 @@ def c12(prop, tier):
     cfgdir = tempfile.mkdtemp(prefix="vC12cfg_")
     try:
         cfg_out = os.path.join(cfgdir, "cfg.out")
-        r = vlib.run_tlc("MC_Config", {"Shard": vlib.seed() % 8 if q else 0, "NShards": 8 if q else 1},
+        # the whole configuration list in both tiers: which configurations a pattern gets must not depend on the tier
+        r = vlib.run_tlc("MC_Config", {"Shard": 0, "NShards": 1},
                          "SPECIFICATION Spec\nINVARIANT Emit\n", cfg_out, workers=4, timeout=900)
         if r.error or r.violation:
             raise Machinery(f"MC_Config: {r.error or r.violation}")
@@ -801,9 +802,12 @@ def c05(prop, tier):
     work = tempfile.mkdtemp(prefix="vC05_")
     try:
         machinery, fail_paths, samples = [], [], []
-        jobs = [(fam, c) for fam, c in search_jobs(tier, ["CC", "REV", "G2a", "CAP", "LIT", "DIG", "ANC", "G2u"], False, 0.45)]
-        if q:
-            jobs = [(f, dict(c, NShards=c["NShards"] * 2)) for f, c in jobs]   # half a shard per family is plenty for a quick run
+        # every haystack of length <= 2 (quick) resp. <= 3 (thorough) over the pattern's alphabet: the pumped families of the
+        # quick tier are a subset of the thorough tier's
+        jobs = [(fam, dict(c, Budget=60 if q else 400, LCap=2 if q else 3))
+                for fam, c in search_jobs(tier, ["CC", "REV", "G2a", "CAP", "LIT", "DIG", "ANC", "G2u"], False, 1.0)]
+        if q:   # a third of the shard's patterns (indices i with i % 3n = s are a subset of those with i % n = s)
+            jobs = [(f, dict(c, NShards=c["NShards"] * 3)) for f, c in jobs]
         states = trans = 0
         agg = {"patterns": 0, "cases": 0, "calls": 0, "nontrivial": 0}
 
@@ -819,7 +823,7 @@ def c05(prop, tier):
                 for part in range(nparts):
                     rp, fp = os.path.join(work, f"rep_{i}_{part}.json"), os.path.join(work, f"fail_{i}_{part}.ndjson")
                     procs.append((subprocess.Popen([vcov, "work", "-in", out, "-report", rp, "-fail", fp, "-part", str(part), "-parts", str(nparts),
-                                                    "-maxn", "4096" if q else "16384"], stdout=subprocess.PIPE, stderr=subprocess.PIPE, text=True), rp, fp))
+                                                    "-maxn", "2048" if q else "8192"] + ([] if q else ["-splits"]), stdout=subprocess.PIPE, stderr=subprocess.PIPE, text=True), rp, fp))
                 for pr, rp, fp in procs:
                     try:
                         _, err = pr.communicate(timeout=3000)
@@ -849,7 +853,7 @@ def c05(prop, tier):
         kf, known_hit, violations, total = vlib.classify(fail_paths, prop)
         coverage = {"evaluations": agg["calls"], "distinct_nontrivial": agg["nontrivial"],
                     "rule": "TLC enumerates pattern-family shards; per pattern up to 3 haystacks of its record are split u.v.w four ways and pumped to "
-                            "u.v^k.w with n = 128..4096 (quick) / 16384 (thorough); work = executed basic blocks of library code (runtime/coverage "
+                            "u.v^k.w with n = 128..2048 (quick) / 8192 (thorough); work = executed basic blocks of library code (runtime/coverage "
                             "counters), second of two identical calls, for Match, FindIndex, FindSubmatchIndex; a series is non-trivial/distinct per "
                             "(pattern, u, v, w, api); superlinear iff log-log slope > 1.35 and the last two doubling ratios > 2.4 and work > 50k blocks; "
                             "compile work on 8 pattern-text families pumped to 1024 bytes (degree <= 3)",
@@ -1041,7 +1045,106 @@ def c17(prop, tier):
         shutil.rmtree(work, ignore_errors=True)
 
 
+def c16(prop, tier):
+    """Prefilters never skip; complete prefilters exact (spec/Prefilter.tla, spec/MC_Prefilter.tla, vh prefilter)."""
+    t0 = time.time()
+    q = tier == "quick"
+    vh = vlib.build_harness()
+    work = tempfile.mkdtemp(prefix="vC16_")
+    try:
+        machinery = []
+        nsh = 32 if q else 1
+        base = {"Shard": vlib.seed() % nsh, "NShards": nsh, "NAlpha": 3, "MaxHay": 5, "MaxHayBig": 4 if q else 5, "Quads": 1,
+                "TrLen": 6 if q else 8, "LoopN": 5 if q else 6, "LoopShapes": {"unanch", "anch", "digitrun", "trk"}}
+        tsh = 1024 if q else 16
+        teddy = dict(base, Phase="teddy", NShards=tsh, Shard=vlib.seed() % tsh, MaxHayBig=4)
+        S = "SPECIFICATION Spec\n"
+        runs = [  # (name, constants, invariants, workers, expect_violation)
+            ("gen", dict(base, Phase="gen"), "INVARIANT Emit\n", 16, False),
+            ("teddy", teddy, "INVARIANTS Emit TeddyFindOK\n", 12 if q else 16, False),
+            ("tracker", dict(base, Phase="tracker", TrLen=8 if q else 10), "INVARIANTS TrackerSafe TrackerDocOK\n", 1, False),
+            ("loop", dict(base, Phase="loop"), "INVARIANTS NoSkip ResultOK\n", 2, False),
+            ("teddy_order", dict(teddy, NShards=100000, Shard=99999), "INVARIANT TeddyMatchOK\n", 2, True),
+            ("tracker_retired", dict(base, Phase="tracker", TrLen=5), "INVARIANT TrackerNeverSkips\n", 1, True),
+            ("loop_blind_tracker", dict(base, Phase="loop", LoopN=4, LoopShapes={"trk_blind"}), "INVARIANTS NoSkip ResultOK\n", 1, True),
+            ("loop_unsafe_runskip", dict(base, Phase="loop", LoopN=4, LoopShapes={"digitrun_unsafe"}), "INVARIANTS NoSkip ResultOK\n", 1, True),
+        ]
+
+        def mk(name, consts, inv, workers, neg):
+            def run():
+                r = vlib.run_tlc("MC_Prefilter", consts, S + inv, os.path.join(work, name + ".out"), workers=workers, timeout=3000, heap="6g")
+                return name, r, neg
+            return run
+        results = vlib.run_parallel([mk(*x) for x in runs], 3 if q else 2)
+        outs, models, states, transitions = {}, {}, 0, 0
+        for name, r, neg in results:
+            outs[name] = r.outfile
+            models[name] = {"distinct_states": r.distinct, "states_generated": r.generated, "wall_s": round(r.wall, 1),
+                            "result": "violation" if r.violation else ("error" if r.error else "ok")}
+            if neg:
+                if not r.violation:
+                    machinery.append(f"negative control {name}: TLC did not find the expected violation ({r.error})")
+                continue
+            if r.violation:
+                machinery.append(f"MC_Prefilter {name}: the model violates its own invariant (model error): {r.violation[:500]}")
+            elif r.error:
+                machinery.append(f"MC_Prefilter {name}: {r.error[:500]}")
+            states += r.distinct
+            transitions += r.generated
+        tcases = tsets = torder = 0
+        with open(outs["teddy"], errors="replace") as fh:
+            for line in fh:
+                if line.startswith('"'):
+                    d = json.loads(json.loads(line))
+                    tsets, tcases, torder = tsets + 1, tcases + d["cases"], torder + (1 if d["matchbad"] else 0)
+        fails, reps = [], {}
+        for name, godebug in [("plain", "")] + CPU_MASKS:
+            rp, fp = os.path.join(work, f"r_{name}.json"), os.path.join(work, f"f_{name}.ndjson")
+            env = dict(os.environ)
+            env.pop("GODEBUG", None)
+            if godebug:
+                env["GODEBUG"] = godebug
+            p = subprocess.run([vh, "prefilter", "-in", outs["gen"], "-report", rp, "-fail", fp], capture_output=True, text=True, timeout=3000, env=env)
+            if p.returncode != 0:
+                raise Machinery(f"vh prefilter ({name}): " + p.stderr[-500:])
+            reps[name] = vlib.read_report(rp)
+            machinery += reps[name].get("machinery_errors") or []
+            fails.append(fp)
+        kf, known_hit, violations, total = vlib.classify(fails, prop)
+        rep = reps["plain"]
+        coverage = {
+            "programs": rep["patterns"], "cases": sum(r["cases"] for r in reps.values()), "evaluations": sum(r["calls"] for r in reps.values()),
+            "distinct_nontrivial": rep["nontrivial"], "states": states, "transitions": transitions, "samples": rep.get("samples") or [{"note": "none"}],
+            "rule": "one program = one literal set of the fixed universe of spec/MC_Prefilter.tla, built into every prefilter the library offers for it; "
+                    "one case = (literal set, haystack of the TLC universe); every start offset compared with TLC's PFind/PMatch; haystacks holding an "
+                    "occurrence embedded at 11 pad offsets x 2 tails x 2-3 fillers and compared with the naive reference validated against TLC and regexp; "
+                    "three runs: plain and two CPU masks; non-trivial = a literal occurs in the haystack",
+            "models": models, "teddy_model": {"literal_sets": tsets, "cases": tcases, "sets_where_bucket_order_differs_from_pattern_order": torder},
+            "implementations_built": rep["extra"]["implementations_built"], "implementations_complete": rep["extra"]["implementations_complete"],
+            "universe": rep["extra"]["universe"], "records_by_family": rep["extra"]["records_by_family"],
+            "embedded_haystacks": sum(r["extra"]["embedded_haystacks"] for r in reps.values()),
+            "span_comparisons": sum(r["extra"]["span_comparisons"] for r in reps.values()),
+            "selected_by_run": {n: r["extra"]["selected"] for n, r in reps.items()}, "cpu_by_run": {n: r["extra"]["cpu"] for n, r in reps.items()},
+            "spec_gaps": sum(r.get("spec_gaps", 0) for r in reps.values()), "failing_calls_total": total, "exhaustive": not q,
+        }
+        return vlib.finish(prop, tier, "model_checking", coverage, known_hit, violations, t0, kf,
+                           assumptions=["TLC evaluates PFind/PMatch and the design models correctly; regexp arbitrates the expected spans (three-way rule)",
+                                        "on embedded haystacks the expectation is the naive Go reference, validated per literal set against TLC and regexp "
+                                        "on the short universe and against regexp on every embedded haystack",
+                                        "golang.org/x/sys/cpu honours GODEBUG=cpu.*=off; the harness prints the flags the library's dispatch reads"],
+                           machinery=machinery)
+    finally:
+        keep = os.environ.get("VERIF_KEEP")
+        if keep:
+            os.makedirs(keep, exist_ok=True)
+            for f in os.listdir(work):
+                if f.startswith("f_"):
+                    shutil.copy(os.path.join(work, f), os.path.join(keep, f"{prop}_fail_{f}"))
+        shutil.rmtree(work, ignore_errors=True)
+
+
 REGISTRY = {
+    "C16": c16,
     "C17": c17,
     "C07": c07,
     "C18": c18,
